@@ -17,7 +17,7 @@ ID = "C12"
 LEVEL = "exploration"
 TIERS = {
   "quick": {"runs": 96, "chunk": 6, "budget_s": 420, "timeout_s": 300},
-  "thorough": {"runs": 1600, "chunk": 10, "budget_s": 3000, "timeout_s": 300},
+  "thorough": {"runs": 384, "chunk": 8, "budget_s": 1500, "timeout_s": 300},
 }
 RULE = ("one evaluation = one compared forward()/step() on the twin (dirty P, fresh Q) after transplanting the same integration "
         "state; runs are generated swarm-style from (seed, index): model (generated MJCF or curated file), options, nworld, "
